@@ -240,6 +240,19 @@ def build(tier, repo):
                                      observed="path from handler to line %d" % getattr(cfg.node_stmt[after], "lineno", 0))
                     else:
                         r2.ok(hkey + ":fallthrough", m.where(h, fn), "no silent fall-through")
+    r2b = chk.rule("C10-R2b", "block-offset discipline inside the ArithmeticError handlers (symmetrisation of the returned iterates)",
+                   "'unknown' result carries symmetrised iterates inside the cone")
+    from .. import rules_common as rc
+
+    def in_handler(node):
+        p = node
+        while p is not None:
+            if isinstance(p, ast.ExceptHandler):
+                return True
+            p = getattr(p, "_parent", None)
+        return False
+    rc.offsets_rule(r2b, w, [(mn, fnn) for mn, fnn in sc.SOLVERS], node_filter=in_handler)
+    r2b.require(10)
     r1.require(12)
     r2.require(20)
     chk.note_analysed("solver_functions", nfun)
@@ -607,8 +620,21 @@ def _check_domain(w, rule):
                 rets = [r for r in pf._scope_nodes(fe) if isinstance(r, ast.Return) and isinstance(r.value, ast.Tuple)
                         and all(isinstance(e, ast.Constant) and e.value is None for e in r.value.elts)]
                 key = "cp.F_e:%s" % pf.norm_expr(st)
+                # value uses of the first component must also exclude the (None, ..) refusal
+                comp_bad = []
+                for sb in subs:
+                    if isinstance(sb.slice, ast.Constant) and sb.slice.value == 0 and not isinstance(sb._parent, ast.Compare):
+                        conds = pf.path_condition(sb)
+                        prem = pf.P_and(*conds) if conds else pf.P_TRUE
+                        if pf.implies(prem, pf.P_not(pf.P_atom("(%s[0] is None)" % t))) is not True:
+                            comp_bad.append(sb)
                 if ung:
                     rule.violation(key, m.where(n, fe), "F's result subscripted without None test", "guarded", m.seg(ung[0]))
+                elif comp_bad:
+                    rule.violation(key + ":component", m.where(comp_bad[0], fe),
+                                   "the first component of F's result is used as a value on a path that does not "
+                                   "exclude the documented (None, None) refusal", "`%s[0] is None` handled before use" % t,
+                                   m.seg(pf.enclosing_stmt(comp_bad[0]))[:80])
                 elif not rets:
                     rule.violation(key, m.where(n, fe), "no `return None, None` for a refused point", "return None, None", "absent")
                 else:
